@@ -337,6 +337,33 @@ func TestC09(t *testing.T) {
 		return
 	}
 	ev.Check(t, "c09_source", ev.N(2400, 40000), c09Gen, c09Run)
+	// every draw a long recipe announces is derived from the source AND used:
+	// with all other choices fixed, its alternatives give different passwords
+	// (a draw that is read and then thrown away decides nothing - the choice it
+	// stands for was not derived from the source bytes)
+	ev.Check(t, "c09_every_draw_matters", ev.N(32, 320), func(t *rapid.T) supWL {
+		w := gen.WLSpec{Words: gen.WordList(t, gen.WordListOpts{Min: 2, Max: 5, AllCapable: true}),
+			Length: rapid.IntRange(30, 130).Draw(t, "long_length"),
+			Scheme: rapid.SampledFrom([]string{"one", "random", "random"}).Draw(t, "scheme"),
+			Sep:    gen.SepSpec{Kind: "const", Const: rapid.SampledFrom([]string{"", "-"}).Draw(t, "sep")}}
+		return supWL{W: w, Key: rapid.Uint64().Draw(t, "key")}
+	}, func(c supWL) error {
+		kept := oracle.Kept(c.W.Words)
+		if !oracle.PremiseOK(kept) || !oracle.AllCapitalisable(kept) || len(kept) < 2 {
+			return &ev.Skip{Why: "premise"}
+		}
+		r, _, err := buildWL(c.W)
+		if err != nil {
+			return &ev.Skip{Why: "empty"}
+		}
+		n, err := localInjectivity(r.Generate, c.Key, 400, 0, 256, nil)
+		ev.Leaves(int64(n))
+		if err == nil {
+			ev.Class("every_draw_matters")
+			ev.NonTrivial(fmt.Sprintf("matters|%+v", c.W))
+		}
+		return err
+	})
 	ev.Check(t, "c09_concurrent_accounting", ev.N(32, 320), func(t *rapid.T) c09Conc {
 		return c09Conc{Key: rapid.Uint64().Draw(t, "key"), G: rapid.IntRange(2, 12).Draw(t, "g"), L: rapid.IntRange(1, 5).Draw(t, "l"), I: rapid.IntRange(20, 150).Draw(t, "i")}
 	}, c09ConcRun)
